@@ -124,6 +124,7 @@ type World struct {
 	scnID          string
 	quiesceTimeout time.Duration
 	indexHeld      bool // an op is running under withIndexHeld
+	slotBase       map[interface{}]int
 	heldFirst      map[string]chan struct{}
 	heldTaken      map[string]chan struct{}
 	reuseOpts      bool // address family: each peer passes one options value to every create/open
@@ -372,9 +373,15 @@ func (w *World) acctOf(s interface{}) *storeAcct {
 
 // register a store so its replicator's hooks can be attributed to it
 func (w *World) registerStore(s iface.Store) {
+	// the number of fetch slots of a fresh replicator: what must be free again whenever it is at rest
+	base := s.Replicator().(statser).VerifStats().FreeSlots
 	w.mu.Lock()
 	w.byRepl[ptrOf(s.Replicator())] = storeKey(s)
 	w.acctOf(s)
+	if w.slotBase == nil {
+		w.slotBase = map[interface{}]int{}
+	}
+	w.slotBase[storeKey(s)] = base
 	w.mu.Unlock()
 }
 
